@@ -180,7 +180,7 @@ func C05(c *core.Ctx) {
 	if !c.Quick() {
 		ng = 4
 	}
-	gfiles := map[int]string{1: "compose.yaml", 2: "sub/f2.yaml"}
+	gfiles := map[int]string{1: "compose.yaml", 2: "sub/f2.yaml", 3: "SUB/f2.yaml"}
 	g := 0
 	// all graphs on ng services, then the chains on one service more
 	for _, gc := range []struct {
